@@ -46,26 +46,98 @@ def plugins_on():
             pkg.__path__.append(p)
 
 
+BMC_ROOT = "/usr/share/phosphor-logging/pels"
+_bmc = {"dir": None, "damaged": None, "opens": 0}
+
+
+def bmc_layout(kind="ok"):
+    """Emulate the BMC file-system layout: no pel_registry distribution on the path, the message registry and the
+    component-id name files under /usr/share/phosphor-logging/pels.  The file API (os.stat/lstat/listdir/scandir/open/
+    access, builtins.open, io.open) is wrapped so that paths below that directory resolve into a scratch copy of the
+    fixture files; everything else passes through untouched.  kind 'damaged': one creator's name file is unusable
+    (empty / truncated / not JSON).  Call before harness.repo()."""
+    import builtins
+    import shutil
+    assert not _loaded and env.REGISTRY_DIR not in sys.path
+    target = os.path.join(scratch_root(), "bmcroot")
+    shutil.rmtree(target, ignore_errors=True)
+    os.makedirs(target)
+    src = os.path.join(env.REGISTRY_DIR, "pel_registry")
+    for f in os.listdir(src):
+        if f.endswith(".json"):
+            shutil.copy(os.path.join(src, f), target)
+    with open(os.path.join(target, "README"), "w") as f:       # not a name file
+        f.write("component id name files\n")
+    if kind.startswith("damaged"):
+        victim = {"damaged-O": "O", "damaged-B": "B"}[kind]
+        _bmc["damaged"] = victim
+        path = os.path.join(target, victim + "_component_ids.json")
+        content = open(path, "rb").read()
+        with open(path, "wb") as f:
+            f.write({"O": b"", "B": content[:len(content) // 2]}[victim])
+    _bmc["dir"] = target
+
+    def remap(p):
+        try:
+            s = os.fspath(p)
+        except TypeError:
+            return p
+        if isinstance(s, bytes):
+            try:
+                s = s.decode()
+            except UnicodeDecodeError:
+                return p
+        if s == BMC_ROOT or s.startswith(BMC_ROOT + "/"):
+            _bmc["opens"] += 1
+            return target + s[len(BMC_ROOT):]
+        return p
+
+    def wrap(mod, name):
+        orig = getattr(mod, name)
+
+        def f(path, *a, **kw):
+            return orig(remap(path), *a, **kw)
+        f.__name__ = name
+        setattr(mod, name, f)
+    for name in ("stat", "lstat", "listdir", "scandir", "open", "access"):
+        wrap(os, name)
+    wrap(builtins, "open")
+    wrap(io, "open")
+    return target
+
+
+def registry_dir():
+    if _bmc["dir"]:
+        return _bmc["dir"]
+    if env.REGISTRY_DIR in sys.path:
+        return os.path.join(env.REGISTRY_DIR, "pel_registry")
+    return None
+
+
 def registry_active():
-    return env.REGISTRY_DIR in sys.path
+    return registry_dir() is not None
 
 
 def load_compnames():
     from vf.pelmodel import CompNames
     CompNames.table = {}
-    if registry_active():
-        d = os.path.join(env.REGISTRY_DIR, "pel_registry")
+    CompNames.lenient = bool(_bmc["damaged"])
+    d = registry_dir()
+    if d:
         for f in os.listdir(d):
-            if f.endswith("_component_ids.json"):
-                with open(os.path.join(d, f)) as fd:
-                    CompNames.table[f[0:f.find("_component_ids.json")]] = json.load(fd)
+            if f.endswith("_component_ids.json") and not f.startswith("."):
+                try:
+                    with open(os.path.join(d, f)) as fd:
+                        CompNames.table[f[0:f.find("_component_ids.json")]] = json.load(fd)
+                except ValueError:
+                    pass
 
 
 def registry_model():
     """[{type, reason, message, args, words6to9}] in registry order (first match wins)."""
     if not registry_active():
         return []
-    with open(os.path.join(env.REGISTRY_DIR, "pel_registry", "message_registry.json")) as f:
+    with open(os.path.join(registry_dir(), "message_registry.json")) as f:
         pels = json.load(f)["PELs"]
     out = []
     for p in pels:
